@@ -498,6 +498,11 @@ func (oc *objectCache) get(obj types.Object) (val interface{}, errs []error) {
 	}()
 	switch obj := obj.(type) {
 	case *types.Var:
+		if n, ok := obj.Type().(*types.Named); !ok || n.Obj().Pkg() == nil || !isWireImport(n.Obj().Pkg().Path()) {
+			// Only what Wire's marker functions return can be an item: do not
+			// go looking into the initializer of any other variable.
+			return nil, []error{fmt.Errorf("%v is not a provider or a provider set", obj)}
+		}
 		spec := oc.varDecl(obj)
 		if spec == nil || len(spec.Values) != len(spec.Names) {
 			// No initializer, or one call initializing several variables.
